@@ -72,6 +72,8 @@ def gen_spelled(rng: random.Random, depth: int):
 def strip_via(t):
     """The same tree with every spelled extract written as a plain one (what the model and the reference are given)."""
     if isinstance(t, list):
+        if t and t[0] == "childsame":
+            return ["child", t[1], [[strip_via(x) for x in h] for h in t[2]]]
         if t and t[0] == "extract":
             return ["extract", t[1], t[2], [[strip_via(x) for x in h] for h in t[3]]]
         return [strip_via(x) for x in t]
@@ -189,6 +191,16 @@ class Probe:
         self.fg = frame_gen()
         next(self.fg)
 
+        class SharedRoot(Root):
+            def __init__(self):
+                self.with_frame = True
+
+            @property
+            def hooks(self):
+                return getattr(outer.tls, "shared_hooks", [])
+
+        self.SharedRoot = SharedRoot
+
         @stackscope.unwrap_stackitem.register(Root)
         def unwrap_root(r):
             items = [HookItem(a) for a in r.hooks]
@@ -212,6 +224,7 @@ class Probe:
             outer.run_acts(frame.pyframe.f_locals["acts"])
 
         self.tls = threading.local()
+        self.shared_root = SharedRoot()
         self.turn = None  # optional callable(threadname) blocking until it is this thread's turn
 
     # the event log of the calling thread
@@ -266,8 +279,14 @@ class Probe:
             assert isinstance(st, ss.Stack)
         elif tag == "outermost":
             ss.extract_outermost(self.Root(a[3], with_frame=not a[4]), with_contexts=a[1], recurse_child_tasks=a[2])
-        elif tag == "child":
-            item = self.Root(a[2])
+        elif tag in ("child", "childsame"):
+            if tag == "childsame":
+                # ONE task object for everybody: every thread, and every nesting level, asks about the same object (what its
+                # hooks do is per call)
+                item = self.shared_root
+                self.tls.shared_hooks = a[2]
+            else:
+                item = self.Root(a[2])
             mark = len(self.log)
             try:
                 st = ss.extract_child(item, for_task=a[1])
@@ -436,6 +455,10 @@ class C13(PropCheck):
                 out.append({"k": "tree", "tree": ["extract", not a, b, [[["extract", a, not b, [["observe"]], via], "observe"]]]})
         for _ in range(n // 3):
             out.append({"k": "tree", "tree": gen_spelled(rng, rng.randint(1, 3))})
+        # one and the same task object asked about from nested levels and (below) from several threads at once
+        for a, b in itertools.product(B, B):
+            out.append({"k": "tree", "tree": ["extract", a, True, [[["childsame", True, [[["childsame", True, [["observe"]]], "observe"]]], "observe"]]]})
+            out.append({"k": "tree", "tree": ["extract", a, b, [[["childsame", b, [[["extract", True, True, [[["childsame", True, [["observe"]]]]]]]]]]]]})
         # threads
         nthr = 12 if tier == "quick" else 40
         for _ in range(nthr):
@@ -443,6 +466,10 @@ class C13(PropCheck):
             trees = [["extract", rng.choice(B), rng.choice(B), gen_hooks(rng, rng.randint(0, 2), 2)] for _ in range(k)]
             out.append({"k": "threads", "trees": trees, "sched_seed": rng.randrange(1 << 30),
                         "nsched": 6 if tier == "quick" else 10})
+        for a in B:
+            trees = [["extract", True, True, [[["childsame", True, [["observe", "observe"]]], "observe"]]],
+                     ["extract", a, True, [["observe", ["childsame", True, [["observe"]]], "observe"]]]]
+            out.append({"k": "threads", "trees": trees, "sched_seed": 2, "nsched": 120 if tier == "thorough" else 40})
         # the two-thread exhaustive family: each thread nests a different option pair
         for a, b in itertools.product(B, B):
             trees = [["extract", a, b, [["observe", ["extract", not a, not b, [["observe"]]], "observe"]]],
@@ -530,7 +557,7 @@ class C13(PropCheck):
         if case["k"] == "tree":
             d["tree"] = strip_via(case["tree"])
         else:
-            d["trees"] = case["trees"]
+            d["trees"] = [strip_via(t) for t in case["trees"]]
         return json.dumps(d)
 
     # ---- the property, evaluated on the real observations alone ---------------------------
@@ -542,7 +569,7 @@ class C13(PropCheck):
         if case["k"] == "threads":
             parts = real.split(" ## ")
             for t, r in zip(case["trees"], parts):
-                f = self.oracle_tree(t, r)
+                f = self.oracle_tree(strip_via(t), r)
                 if f:
                     return f"thread running {json.dumps(t)[:200]}: {f}"
             return None
